@@ -73,9 +73,14 @@ func (a *vfAssembly) build() (err error) {
 	logger := slogutil.NewDiscardLogger()
 	ctx := context.Background()
 
-	a.dir, err = os.MkdirTemp("", "vfhome")
-	if err != nil {
-		return fmt.Errorf("VERIF-INCONCLUSIVE mkdir: %w", err)
+	if d := os.Getenv("VERIF_C14_CHILD"); d != "" {
+		// a traced child works in the directory its parent watches
+		a.dir = d
+	} else {
+		a.dir, err = os.MkdirTemp("", "vfhome")
+		if err != nil {
+			return fmt.Errorf("VERIF-INCONCLUSIVE mkdir: %w", err)
+		}
 	}
 
 	globalContext.workDir = a.dir
